@@ -332,6 +332,8 @@ class AbsRun:
             return True  # the failed-lookup arm of an expanded table
         if isinstance(v, ast.Tuple) or (isinstance(v, ast.Constant) and v.value is None):
             return True  # a row of constants / "no row": kept as it is, its components are evaluated where they are used
+        if isinstance(v, ast.Subscript) and not isinstance(v.slice, ast.Slice) and AbsRun._aliasable(v.value) and isinstance(v.slice, (ast.Name, ast.Constant)):
+            return True  # an entry of a table of objects (classes, callables): `cls = TABLE[opcode]`
         return False
 
     def on_call(self, c: ast.Call, ev: Evaluator) -> Optional[Form]:
@@ -455,7 +457,15 @@ class AbsRun:
                 self.alias.pop(s.targets[0].id, None)
             except Inconclusive:
                 self.env.pop(s.targets[0].id, None)
-                self.alias[s.targets[0].id] = self.ev.resolve_alias(s.value)
+                av = self.ev.resolve_alias(s.value)
+                if isinstance(av, ast.Subscript) and isinstance(av.slice, ast.Name):
+                    # the index as it is *now* (the local may be rebound before the entry is used)
+                    iv = self.env.get(av.slice.id)
+                    if isinstance(iv, Form) and iv.is_const():
+                        av = ast.copy_location(ast.Subscript(value=av.value, slice=ast.Constant(value=iv.const), ctx=ast.Load()), av)
+                    else:
+                        raise Inconclusive(f"table entry selected by a non-constant index: {ast.unparse(av)[:60]}")
+                self.alias[s.targets[0].id] = av
             return
         # a, b = <local that stands for a tuple>
         if isinstance(s, ast.Assign) and len(s.targets) == 1 and isinstance(s.targets[0], ast.Tuple) and isinstance(s.value, ast.Name) \
